@@ -41,6 +41,15 @@ class Acc:
         self.counts[k] = self.counts.get(k, 0) + n
 
 
+MAXF = {"f64": F(2) ** 1020, "f32": F(2) ** 124}
+
+
+def overflowish(exact, tol, ty):
+    """the exact value (or an intermediate of comparable size) is near the overflow
+    threshold of the element type: a non-finite result is then not a property violation"""
+    return abs(exact) + tol > MAXF[ty]
+
+
 def lanes_of(ev):
     shape = ev["shape"]
     n = shape[0]
@@ -97,13 +106,15 @@ def check_interp1(ev, acc):
             for k, qq in enumerate(q):
                 r = res[k * lanes + l]
                 acc.values += 1
+                exact, Y, t = X.line_exact(x, y, qq)
+                tol = X.line_tol(ty, Y, t)
                 if not X.is_finite(r):
-                    if nviol < MAX_VIOL_PER_EVENT:
+                    if overflowish(exact, tol, ty):
+                        acc.count("overflow-skipped")
+                    elif nviol < MAX_VIOL_PER_EVENT:
                         viol(acc, ev, f"{prop}:line", f"non-finite result {r} for q={qq!r} lane {l}")
                         nviol += 1
                     continue
-                exact, Y, t = X.line_exact(x, y, qq)
-                tol = X.line_tol(ty, Y, t)
                 err = abs(F(r) - exact)
                 acc.ratio_upd("line", err, tol)
                 if err > tol:
@@ -178,11 +189,6 @@ def check_spline_values(ev, acc, prop, x, xf, yf, M, bc, q, qf, lane_res, tol0, 
     for k, qq in enumerate(q):
         r = lane_res[k]
         acc.values += 1
-        if not X.is_finite(r):
-            if nv + nviol < MAX_VIOL_PER_EVENT:
-                viol(acc, ev, f"{prop}:value", f"non-finite result {r} for q={qq!r} lane {l}")
-                nviol += 1
-            continue
         qx = qf[k]
         inside = xf[0] <= qx <= xf[-1]
         extra_tol = F(0)
@@ -192,7 +198,13 @@ def check_spline_values(ev, acc, prop, x, xf, yf, M, bc, q, qf, lane_res, tol0, 
                 L = X.spline_slope_bound(xf, yf, M)
             P = xf[-1] - xf[0]
             delta = 4 * X.U[ty] * (abs(qx) + abs(xf[0]) + P)
-            extra_tol = L * delta
+            # Lipschitz term. The crate's wrapped argument can differ from the exact wrap by
+            # delta on the circle and may even land up to delta outside the range, where the
+            # end cubic is continued: |S1| is bounded there by L + max|S2| delta + max|S3| delta^2
+            # (S1, S2, S3 = first, second, third derivative).
+            m_max = max(abs(m) for m in M)
+            s3_max = max(abs(M[j + 1] - M[j]) / (xf[j + 1] - xf[j]) for j in range(len(xf) - 1))
+            extra_tol = (2 * L + m_max * delta + s3_max * delta * delta) * delta
             i = X.bracket(x, float(w)) if w != xf[-1] else len(x) - 2
             # float(w) may round across a knot: fix the bracket exactly
             while i > 0 and w < xf[i]:
@@ -208,6 +220,13 @@ def check_spline_values(ev, acc, prop, x, xf, yf, M, bc, q, qf, lane_res, tol0, 
             amp = X.t_amp(xf, i, qx)
             name = "value" if inside else "value-extrapolated"
         tol = tol0 * amp + extra_tol
+        if not X.is_finite(r):
+            if overflowish(exact, tol / X.U[ty], ty):
+                acc.count("overflow-skipped")
+            elif nv + nviol < MAX_VIOL_PER_EVENT:
+                viol(acc, ev, f"{prop}:value", f"non-finite result {r} for q={qq!r} lane {l}")
+                nviol += 1
+            continue
         err = abs(F(r) - exact)
         acc.ratio_upd(name, err, tol)
         if err > tol:
@@ -454,13 +473,15 @@ def check_interp2(ev, acc):
         for k in range(len(qx)):
             r = res[k * lanes + l]
             acc.values += 1
+            exact, Z, tx, ty_ = X.bilinear_exact(x, y, z, qx[k], qy[k])
+            tol = X.bilinear_tol(ty, Z, tx, ty_)
             if not X.is_finite(r):
-                if nviol < MAX_VIOL_PER_EVENT:
+                if overflowish(exact, tol / X.U[ty], ty):
+                    acc.count("overflow-skipped")
+                elif nviol < MAX_VIOL_PER_EVENT:
                     viol(acc, ev, f"{prop}:blend", f"non-finite result {r} for q=({qx[k]!r},{qy[k]!r}) lane {l}")
                     nviol += 1
                 continue
-            exact, Z, tx, ty_ = X.bilinear_exact(x, y, z, qx[k], qy[k])
-            tol = X.bilinear_tol(ty, Z, tx, ty_)
             name = "blend"
             if coef is not None:
                 a, b, c, d = coef
